@@ -1426,7 +1426,8 @@ SUMMARIES = [(re.compile(rx), h) for rx, h in [
     (r"result::Result::<T, E>::map$|option::Option::<T>::map$", s_variant_map("map")),
     (r"result::Result::<T, E>::map_err$", s_variant_map("map_err")),
     (r"result::Result::<T, E>::and_then$|option::Option::<T>::and_then$", s_variant_map("and_then")),
-    (r"option::Option::<T>::Some$", s_ctor("Some")), (r"result::Result::<T, E>::Ok$", s_ctor("Ok")), (r"result::Result::<T, E>::Err$", s_ctor("Err")),
+    (r"option::Option(::<T>)?::Some$|^std::prelude::v\d::Some$", s_ctor("Some")), (r"result::Result(::<T, E>)?::Ok$|^std::prelude::v\d::Ok$", s_ctor("Ok")),
+    (r"result::Result(::<T, E>)?::Err$|^std::prelude::v\d::Err$", s_ctor("Err")),
     (r"Iterator>::enumerate$|Iterator::enumerate$", s_iter_adapter("enumerate")),
     (r"Iterator>::(cloned|copied|by_ref|peekable|fuse)$|Iterator::(cloned|copied|by_ref|peekable|fuse)$", s_iter_adapter("cloned")),
     (r"Iterator>::next$|Iterator::next$", s_next),
